@@ -154,10 +154,10 @@ theorem iterE_rule {α : Type} {f : α → Store → R} {I : Store → Store →
 
 /-! ## Invariants (relative to `P`: the objects whose `_delete_` is in progress) -/
 
-/-- stored ids are ids of existing objects; an object holds values only under attributes of its own entity -/
-structure Range (sch : Schema) (s : Store) : Prop where
+/-- stored ids are ids of existing objects; an object holds values only under attributes of its own class (inherited ones included) -/
+structure Range (sch : Schema) (ct : ClassTable) (s : Store) : Prop where
   lt : ∀ p b q, hasB sch s p b q = true → q < s.n
-  ent : ∀ p b q d, hasB sch s p b q = true → sch.side b = some d → d.ent = s.ent p
+  ent : ∀ p b q, hasB sch s p b q = true → b ∈ ct (s.ent p)
 
 /-- both ends agree: what a live object `p` holds under `b` holds `p` under `b.reverse` — except that REFERENCE cells of an
     object whose deletion is in progress may be stale (the partner's side is already unlinked) -/
@@ -186,9 +186,9 @@ theorem Sub.dead {sch : Schema} {s s' : Store} (h : Sub sch s s') {p : ObjId} (h
   | false => rfl
   | true => rw [h.alive p hal] at hp; cases hp
 
-theorem Sub.range {sch : Schema} {s s' : Store} (h : Sub sch s s') (hR : Range sch s) : Range sch s' :=
+theorem Sub.range {sch : Schema} {ct : ClassTable} {s s' : Store} (h : Sub sch s s') (hR : Range sch ct s) : Range sch ct s' :=
   ⟨fun p b q hh => by rw [h.n]; exact hR.lt p b q (h.has p b q hh),
-   fun p b q d hh hd => by rw [h.ent]; exact hR.ent p b q d (h.has p b q hh) hd⟩
+   fun p b q hh => by rw [h.ent]; exact hR.ent p b q (h.has p b q hh)⟩
 
 /-- a removed cell: its target is dead or in progress, or the attribute does not cascade and its holder is dead or in progress -/
 def Rem (sch : Schema) (P : ObjId → Prop) (s s' : Store) : Prop :=
